@@ -79,6 +79,33 @@ fn report_of(spec: &RunSpec, r: &RunResult) -> RunReport {
     if !r.out.panics.is_empty() {
         counters.insert("probe.run_with_server_panic".into(), 1);
     }
+    for (k, v) in &r.out.lock_probes {
+        *counters.entry(format!("sched.{k}")).or_insert(0) += *v;
+    }
+    if !spec.sched.stall_target.is_empty() {
+        *counters.entry(format!("sched.slow_resource_run:{}", spec.sched.stall_target)).or_insert(0) += 1;
+    }
+    // shape of the script (what the generator aimed at, so that a blind workload is visible)
+    let mut prev_edit: Option<(usize, usize)> = None; // (step index, doc)
+    for (i, st) in spec.script.iter().enumerate() {
+        match &st.action {
+            crate::script::Action::Open { doc, .. } | crate::script::Action::Change { doc, .. } => {
+                if let (Some((pi, pd)), crate::script::Gap::SleepMs(ms)) = (prev_edit, &st.gap) {
+                    if pi + 1 == i && pd == *doc && (*ms <= 2 || [99, 100, 101, 499, 500, 501, 999, 1000, 1001, 1499, 1500, 1501].contains(ms)) {
+                        *counters.entry("script.timer_race_pair".into()).or_insert(0) += 1;
+                    }
+                }
+                prev_edit = Some((i, *doc));
+            }
+            crate::script::Action::Request { id, .. } => {
+                if crate::proto::string_id(*id) {
+                    *counters.entry("script.request_with_string_id".into()).or_insert(0) += 1;
+                }
+                prev_edit = None;
+            }
+            _ => prev_edit = None,
+        }
+    }
     RunReport {
         violations: r.violations.iter().map(|v| (v.class.clone(), v.detail.clone())).collect(),
         decisions: r.out.decisions.clone(),
